@@ -560,20 +560,29 @@ func TestVerif_C23(t *testing.T) {
 		r.Rule("explicit-state BFS over operation sequences (puts, deletes, range deletions incl. nil bounds and inverted ranges, batch put/delete/range-delete/write/reset/replay, " +
 			"snapshot iterators opened before and drained after writes) applied in lock-step to memorydb, pebble, leveldb and prefixed table views over memorydb and pebble; " +
 			"after every operation Has/Get of every key and a full iteration of every backend are compared with a plain-map model; states de-duplicated on the model state " +
-			"(contents, pending batch, open iterator snapshot); two start states (empty, 3 keys)")
+			"(contents, pending batch, open iterator snapshot); three start states (empty; 5 keys; 5 keys with a full-range iterator already open)")
 		r.Assume("leveldb's batch.DeleteRange is a documented fallback (deletes the keys present when it is called); it is checked against a model of that fallback, and its divergence from the other backends is reported as a known finding")
 		starts := []map[string]string{{}, {"a": "1", "ab": "2", "\xff": "3", "b": "4", "a\xff": "5"}}
 		type expl struct {
 			name  string
 			start int
 			depth int
+			iter  bool // the start state additionally has a full-range iterator open (snapshot taken before every explored op)
+		}
+		iopenAll := -1
+		for i, o := range ops {
+			if o.kind == "iopen" && o.k == "" && o.s == "" {
+				iopenAll = i
+			}
 		}
 		// quick: empty start to depth 3, populated start to depth 2. thorough: both to depth 3 first (these complete),
 		// then the empty start to depth 4 for as long as the budget lasts (on-disk engines: ~1 ms per transition), so the
 		// completed bound is reported honestly when the last exploration is cut by the deadline.
-		plan := []expl{{"kv-start0", 0, 3}, {"kv-start1", 1, 2}}
+		// kv-start1-iter: populated store with an iterator already open, so that "overwrite / delete a key the open iterator
+		// still has to yield, then drain" is within depth 2 (same-length overwrites included: the stored values have length 1).
+		plan := []expl{{"kv-start0", 0, 3, false}, {"kv-start1", 1, 2, false}, {"kv-start1-iter", 1, 2, true}}
 		if thorough {
-			plan = []expl{{"kv-start0", 0, 3}, {"kv-start1", 1, 3}, {"kv-start0-depth4", 0, 4}}
+			plan = []expl{{"kv-start0", 0, 3, false}, {"kv-start1", 1, 3, false}, {"kv-start1-iter", 1, 3, true}, {"kv-start0-depth4", 0, 4, false}}
 		}
 		for _, e := range plan {
 			init := starts[e.start]
@@ -588,7 +597,13 @@ func TestVerif_C23(t *testing.T) {
 					for k, v := range init {
 						m.store[k] = v
 					}
-					return &c23Sys{set: set, m: m, ops: ops, keys: keys, known: known}
+					sys := &c23Sys{set: set, m: m, ops: ops, keys: keys, known: known}
+					if e.iter {
+						if err := sys.Apply(iopenAll); err != nil {
+							panic("C23 start state: " + err.Error())
+						}
+					}
+					return sys
 				},
 				Close: func(s mc.Sys) { c23Put(s.(*c23Sys).set) },
 			})
@@ -615,7 +630,17 @@ func TestVerif_C23(t *testing.T) {
 				}
 			}
 			for _, c := range s.closers {
-				c()
+				// engine teardown is not part of the property: pebble's Close panics ("element has outstanding
+				// references") now and then when a background job still holds a table reader while an exploration
+				// was cut by the deadline; the directories are temporary, so a failed Close is only counted.
+				func() {
+					defer func() {
+						if p := recover(); p != nil {
+							r.Outcome("teardown:engine-close-panicked")
+						}
+					}()
+					c()
+				}()
 			}
 		}
 		c23Pool.free = nil
